@@ -27,19 +27,19 @@ type InstCfg struct {
 }
 
 type SeqScenario struct {
-	Prop      string   `json:"prop"`
-	Family    string   `json:"family"` // map | cache
-	Mode      string   `json:"mode"`   // model | twin | sibling
-	A         InstCfg  `json:"a"`
-	B         *InstCfg `json:"b,omitempty"`
-	Epoch     int64    `json:"epoch"`
-	CBKind    int      `json:"cb_kind"`
-	Ops       []Op     `json:"ops"`
-	SchedSeed uint64   `json:"sched_seed"`
-	HashMode  string   `json:"hash_mode"`
-	Replay    []uint16 `json:"replay,omitempty"`
-	ReplayRLE string   `json:"replay_rle,omitempty"`
-	JanitorOnly bool   `json:"janitor_only,omitempty"` // C15a: the program only advances the clock and polls Count
+	Prop        string   `json:"prop"`
+	Family      string   `json:"family"` // map | cache
+	Mode        string   `json:"mode"`   // model | twin | sibling
+	A           InstCfg  `json:"a"`
+	B           *InstCfg `json:"b,omitempty"`
+	Epoch       int64    `json:"epoch"`
+	CBKind      int      `json:"cb_kind"`
+	Ops         []Op     `json:"ops"`
+	SchedSeed   uint64   `json:"sched_seed"`
+	HashMode    string   `json:"hash_mode"`
+	Replay      []uint16 `json:"replay,omitempty"`
+	ReplayRLE   string   `json:"replay_rle,omitempty"`
+	JanitorOnly bool     `json:"janitor_only,omitempty"` // C15a: the program only advances the clock and polls Count
 }
 
 func (s *SeqScenario) note(w *WorkerOut) {
